@@ -137,10 +137,11 @@ def syntax_faults(r):
 
 HOSTS = ["bare", "tuple-field", "list-element", "call-argument", "select-arm", "function-body", "nested-2",
          "function-body-via-map", "function-body-via-filter", "function-body-via-reduce", "function-body-via-tuple-map",
-         "function-body-via-function", "module-body", "module-out-expression"]
+         "function-body-via-function", "module-body", "module-out-expression", "function-body-via-call-chain"]
 # hosts whose fault only happens when a later statement calls (or instantiates) what the faulty statement defines
 CALLED_HOSTS = {"function-body", "function-body-via-map", "function-body-via-filter", "function-body-via-reduce",
-                "function-body-via-tuple-map", "function-body-via-function", "module-body", "module-out-expression"}
+                "function-body-via-tuple-map", "function-body-via-function", "module-body", "module-out-expression", "function-body-via-call-chain"}
+CHAIN_LENGTHS = [1, 2, 4, 7, 8, 9, 10, 13, 21, 40]
 
 
 def host_tokens(host, name, ftoks, r):
@@ -177,6 +178,14 @@ def host_tokens(host, name, ftoks, r):
     if host == "function-body-via-function":
         return (["let", name, "=", "func", "(", "arg", ")", "=>"] + ftoks + [";"],
                 ["let", name + "r", "=", "idf", "(", "{", "a", "=", name, "(", "1", ")", "}", ")", ";"])
+    if host == "function-body-via-call-chain":
+        # the faulty function is reached through n helper functions, each defined in a statement of its own and each calling
+        # the one before; the statement that starts it all is the last one, and it has to be listed however long the chain is
+        n = r.choice(CHAIN_LENGTHS)
+        middle = [["let", "%sc%d" % (name, i), "=", "func", "(", "x", ")", "=>", (name if i == 1 else "%sc%d" % (name, i - 1)), "(", "x", ")", ";"]
+                  for i in range(1, n + 1)]
+        return (["let", name, "=", "func", "(", "arg", ")", "=>"] + ftoks + [";"],
+                ["let", name + "r", "=", "%sc%d" % (name, n), "(", "1", ")", ";"], middle)
     if host == "module-body":
         return (["let", name, "=", "module", "{", "arg", "=", "1", "}", "=>", "(", "res", ")", "{", "let", "res", "="] + ftoks + [";", "}", ";"],
                 ["let", name + "r", "=", name, "{", "arg", "=", "2", "}", ";"])
@@ -216,20 +225,23 @@ def build_case(probe, r, nvalid, kind, ftoks, host, pos):
         pr.stmt(s)
         valid.append([t for t in pr.toks if not isinstance(t, tuple)])
     valid = valid[:nvalid]
+    middle = []
     if kind.startswith("let-constraint"):
         fstmt, cstmt = ["let", "flt", "::"] + ftoks + [";"], None
     else:
-        fstmt, cstmt = host_tokens(host, "flt", ftoks, r)
+        ht = host_tokens(host, "flt", ftoks, r)
+        fstmt, cstmt = ht[0], ht[1]
+        middle = ht[2] if len(ht) > 2 else []
     if kind.startswith("syntax-run-on"):
         assert host == "bare" and fstmt[-1] == ";"
         fstmt = fstmt[:-1]
     pos = min(pos, len(valid))
-    seq = prelude + valid[:pos] + [fstmt] + valid[pos:]
+    seq = prelude + valid[:pos] + [fstmt] + middle + valid[pos:]
     fidx = len(prelude) + pos
     cidx = None
     if cstmt is not None:
         # the call comes somewhere later
-        at = r.randint(fidx + 1, len(seq))
+        at = r.randint(fidx + 1 + len(middle), len(seq))
         seq = seq[:at] + [cstmt] + seq[at:]
         cidx = at
     toks = []
